@@ -44,7 +44,7 @@ REQUIRED = [
     "fact_export_loop_shape", "fact_export_error_wording", "fact_fs2vault_target_wrapped", "fact_export_uses_the_nodes_validation", "wrappedSave_gated", "wrappedPut_gated",
     "export_lists_only_listed_names", "export_target_entries_valid_and_faithful", "export_output_independent_of_key_material",
     "fs2vault_new_entries_confined", "export_target_keeps_names", "export_success_means_all_listed_present", "wrappedSave_dup", "wrappedPut_dup",
-    "fact_pem_switch_tables", "pem_signer_only_from_private_block", "pem_public_decoder_refuses_private_blocks", "pem_other_block_is_nil_without_error",
+    "fact_memory_signer_kid_guards", "memory_signer_signs_only_for_own_key_id", "memory_signer_jwt_refuses_foreign_kid", "fact_pem_switch_tables", "pem_signer_only_from_private_block", "pem_public_decoder_refuses_private_blocks", "pem_other_block_is_nil_without_error",
     "fact_external_name_to_path", "external_target_confined", "external_valid_name_not_dot_segment", "fs_list_roundtrip", "fs_listed_name_shape", "fs_list_separator_not_checked",
 ]
 
@@ -466,6 +466,14 @@ def run(ctx):
                                                          "\n".join(ops[seq_start:i + 1]))
             elif k in ("signjws", "signjwt"):
                 m = re.search(r" ok kid=(.*) jwk=(\S+) secret=([01]) names=", line)
+                if m and op.get("via") == "memory" and "memKeyId" in op:
+                    # sign only by key id: the in-memory signer issues a token only for its key's OWN id, carrying that id,
+                    # made with that key
+                    if op.get("kid") != op["memKeyId"] or m.group(1) != op["memKeyId"] or " vk=own" not in line:
+                        hdr_bad += 1
+                        found_violation |= ctx.violation("C03:ks:memory-signer-signed-for-a-kid-that-is-not-its-keys-id",
+                                                         f"in-memory key with id {op['memKeyId']!r} asked to sign for kid {op.get('kid')!r}: {line[:200]}",
+                                                         "ks-memory-kid.jsonl", ops[i])
                 if m:
                     hdr_feat[f"{k}:ok" + (":jwk" if m.group(2) != "-" else "")] += 1
                     if m.group(3) == "1" and m.group(2) in STORE_KEY_JWKS | {"?"}:
